@@ -231,7 +231,7 @@ EXH_ELEMS = [
 
 
 def enum_exh(tier):
-    L = 5 if tier == "quick" else 8
+    L = 5 if tier == "quick" else 7
     cases = []
     for name, p in EXH_ELEMS:
         e = streams.ELEMS[name]
@@ -308,7 +308,7 @@ def subchecks():
         Sub("routing", run_route, strategy=st_route, examples=(1500, 40000),
             rule="Gate / Multiplexer / Demultiplexer with generated enable / sel waveforms; per-cycle routing oracle"),
         Sub("exhaustive", run_exh, enum=enum_exh, exhaustive=True,
-            rule="16 element configurations x ALL producer x consumer schedules of length 5 (thorough 8) with 5 numbered tokens"),
+            rule="16 element configurations x ALL producer x consumer schedules of length 5 (thorough 7) with 5 numbered tokens"),
         Sub("ctor", run_ctor, enum=enum_ctor, exhaustive=True, shards=(2, 2),
             rule="constructors leave the caller's EndpointDescription unchanged"),
     ]
